@@ -32,8 +32,8 @@ META = dict(
     level_text=("TLC proves on the memory model that objects with equal (configuration, settings, call history) are indistinguishable whatever "
                 "their address, their allocation's contents and the other objects, that a copy of the announced size and a reset (= fresh + "
                 "settings) preserve this, and refutes each single departure from the design. The model is bound to libopus by replaying "
-                "TLC-enumerated histories (all abstract histories to depth 5, a sample of depth 6, long random ones, directed ones) on real "
-                "objects in poisoned memory and having TLC compare the outputs of every recurrence of an (abstract state, call) pair."),
+                "TLC-enumerated histories (thorough: all abstract histories to depth 5, a seeded sample of depth 6, long random ones, directed "
+                "ones; quick: a seeded sample of these) on real objects in poisoned memory and having TLC compare the outputs of every recurrence of an (abstract state, call) pair."),
     level_note=("Trusted: TLC, Json module, FNV digests. The implementation is exercised on the enumerated histories x seeded configurations, "
                 "signals and settings, not on all of them; arch levels are compared with themselves only. Finding F3 (reset with in-band FEC) is "
                 "matched by shape in the trace spec (TolerateF3) and reported as KNOWN-FINDING."),
